@@ -31,6 +31,8 @@ def var_bounds(kinds, tight=False):
         elif k == "fixed":
             v = 0.5 if j % 2 == 0 else -0.25
             lb.append(v); ub.append(v)
+        elif k == "odd":         # bounds that are not binary fractions (x - (x - lb) need not be lb in floating point)
+            lb.append(0.1 if j % 2 == 0 else -1.0 / 3.0); ub.append(0.9 if j % 2 == 0 else 0.7)
         elif k == "bigbox":      # bounds of large magnitude (absolute activity tolerances must stay absolute)
             lb.append(-1.0e6); ub.append(2.0e6)
         elif k == "bigupper":
@@ -186,7 +188,9 @@ def scalings(n, m, at):
             scaling_for(CUSTOM_SCALINGS[1], n, m),
             scaling_for("Nominal", n, m, pt),
             scaling_for("GradJac", n, m, pt),
-            scaling_for("KKT", n, m, pt, [0.5, -1.5, 2.0][:m])]
+            scaling_for("KKT", n, m, pt, [0.5, -1.5, 2.0][:m]),
+            # all variable / constraint weights zero, only the objective scaled
+            {"type": "custom", "vw": [0] * n, "cw": [0] * m, "ow": 3}]
 
 
 # -------- strictly convex QP class (C03) ------------------------------------------
